@@ -77,7 +77,7 @@ MCRowSeq == %s
        "<<" + ", ".join(tla_str(r) for r in rows) + ">>")
     cfg = ("SPECIFICATION Spec\n" + cfg_consts(InstSeq="<- MCInstSeq", RowSeq="<- MCRowSeq", ShapeRows=shape_rows, ModeDepth=4) +
            "INVARIANT ModeTyped ModeIsLastSwitch RenderedRight\n")
-    r = ctx.tlc("gen", ["Reply.tla", "ReplyGen.tla"], mc, cfg, workers=4, timeout=600)
+    r = ctx.tlc("gen", ["Reply.tla", "ReplyGen.tla"], mc, cfg, workers=4, timeout=1200)
     if not r["ok"]:
         raise common.Infra("the mode machine of Reply violates its own invariant %s: see %s" % (r["violated"], r["out"]))
     beh = os.path.join(r["dir"], "cells.ndjson")
@@ -90,6 +90,28 @@ MCRowSeq == %s
     lines.sort(key=lambda l: (json.loads(l)["kind"] == "live", order[json.loads(l)["row"]]))
     open(beh, "w").write("\n".join(lines) + "\n")
     ctx.log("TLC ReplyGen: %d distinct states, %d behaviours (cells of the matrix and live commands)" % (r["distinct"], n))
+    return r, beh, n
+
+
+def chains(ctx, rows, insts, num, length):
+    mc = """---- MODULE MC_chains ----
+EXTENDS ReplySim
+MCInstSeq == %s
+MCRowSeq == %s
+====
+""" % ("<<" + ", ".join('[id |-> %s, n |-> %d, live |-> %s]' % (tla_str(i["id"]), len(i["args"]), "TRUE" if i["live"] else "FALSE")
+                         for i in insts) + ">>",
+       "<<" + ", ".join(tla_str(r) for r in rows) + ">>")
+    cfg = ("SPECIFICATION Spec\n" + cfg_consts(InstSeq="<- MCInstSeq", RowSeq="<- MCRowSeq", ChainLen=length) + "INVARIANT ChainTyped\n")
+    # one worker: TLC's simulation workers draw the same random sequence
+    r = ctx.tlc("chains", ["ReplySim.tla"], mc, cfg, workers=1, simulate=num, depth=length + 3, timeout=1500)
+    if not r["ok"]:
+        raise common.Infra("ReplySim violates %s: see %s" % (r["violated"], r["out"]))
+    beh = os.path.join(r["dir"], "chains.ndjson")
+    n = ctx.extract_tr(r["out"], beh)
+    if n == 0:
+        raise common.Infra("ReplySim produced no chains")
+    ctx.log("TLC ReplySim (simulate): %d chains of %d commands" % (n, length))
     return r, beh, n
 
 
@@ -264,11 +286,20 @@ def keyspace_behaviours(ctx):
     from . import c01
     r1, beh1, n1 = c01.bfs(ctx, "ks_onekey", 1, 2, ["g:P1", "g:S1"], 1, ["v:0", "v:1", "v:abc"], ["p:*", "p:=1"], 1,
                            withhooks=False, two=False, maxhist=ctx.pick(3, 12))
-    r2, beh2, n2 = c01.sim(ctx, "ks_sim", ctx.pick(48, 1200), ctx.pick(30, 50))
+    depth = ctx.pick(30, 50)
+    mc = c01.mc_module("ks_sim", "KeyspaceSim", 3, 3, c01.ALL_GEOS, 2, c01.ALL_VALS, c01.ALL_PATS, 2)
+    cfg = ("SPECIFICATION SimSpec\n" + cfg_consts(MaxHist=depth, WithHooks=True, **c01.SUBST) + "INVARIANT StoredForms\n")
+    # one worker: TLC's simulation workers draw the same random sequence
+    r2 = ctx.tlc("ks_sim", ["Keyspace.tla", "KeyspaceRand.tla", "KeyspaceSim.tla"], mc, cfg, workers=1,
+                 simulate=ctx.pick(40, 800), depth=depth + 5, timeout=1500)
+    if not r2["ok"]:
+        raise common.Infra("KeyspaceSim violates %s: see %s" % (r2["violated"], r2["out"]))
+    beh2 = r2["dir"] + "/behaviours.ndjson"
+    n2 = ctx.extract_tr(r2["out"], beh2)
+    ctx.log("TLC ks_sim (simulate): %d behaviours of depth %d" % (n2, depth))
     beh = os.path.join(ctx.scratch, "ks.ndjson")
     lines = [l for l in open(beh1).read().split("\n") if l]
-    if ctx.quick:
-        lines = lines[::max(1, len(lines) // 250)]
+    lines = lines[::max(1, len(lines) // ctx.pick(250, 6000))]
     lines += [l for l in open(beh2).read().split("\n") if l]
     open(beh, "w").write("\n".join(lines) + "\n")
     return beh, len(lines), r1["distinct"] + r2["generated"], n1 + r2["generated"]
@@ -282,15 +313,16 @@ def run(ctx):
     insts = [i for i in tab["instances"] if ctx.pick(not i["thorough"], True)]
     ctx.log("command table of %s: %d commands, %d instances, %d namings, %d lanes" %
             (common.REPO, len(tab["commands"]), len(insts), len(rows), len(tab["lanes"])))
-    gen, cells, ncells = generate(ctx, tab, rows, ctx.pick(1, 3), insts)
+    gen, cells, ncells = generate(ctx, tab, rows, ctx.pick(1, len(rows)), insts)
     ksbeh, nks, ksstates, kstrans = keyspace_behaviours(ctx)
+    sim, chbeh, nchains = chains(ctx, rows, insts, ctx.pick(72, 2000), ctx.pick(25, 40))
 
     total = {"lines": 0, "checks": 0, "rejected": 0}
     stats = {}
     samples = []
     selftest = {"damaged": 0, "caught": 0}
     jobs = []          # (label, group index, trace file)
-    for label, beh, groups in (("table", cells, ctx.pick(4, 4)), ("ks", ksbeh, ctx.pick(2, 4))):
+    for label, beh, groups in (("table", cells, ctx.pick(4, 8)), ("chain", chbeh, ctx.pick(3, 8)), ("ks", ksbeh, ctx.pick(2, 8))):
         js = execute(ctx, beh, label, groups)
         for k, v in js["stats"].items():
             if isinstance(v, int):
@@ -311,7 +343,7 @@ def run(ctx):
         damaged = corrupt(trace, bad)
         return job, judge(ctx, "%s_selftest" % label, bad, tab["tokens"]), (bad, damaged)
 
-    with concurrent.futures.ThreadPoolExecutor(max_workers=4) as ex:
+    with concurrent.futures.ThreadPoolExecutor(max_workers=ctx.pick(4, 6)) as ex:
         results = list(ex.map(work, jobs))
     for (label, gi, trace, self_test), (r, summ, rej), extra in results:
         if self_test:
@@ -341,8 +373,9 @@ def run(ctx):
     if missing:
         raise common.Infra("commands of the table that were never executed: %s" % ", ".join(missing))
     common.write_evidence(ctx, "model_checking", {
-        "states": gen["distinct"] + ksstates,
-        "transitions": gen["generated"] + kstrans,
+        "states": gen["distinct"] + ksstates + sim["generated"],
+        "transitions": gen["generated"] + kstrans + sim["generated"],
+        "chains": nchains,
         "traces_validated_against_impl": stats.get("behaviours", 0),
         "samples": samples,
         "commands_in_source": len(tab["commands"]),
